@@ -15,6 +15,17 @@ def load(path):
     return doc.get("findings", [])
 
 
+def flatten(trace):
+    """The steps of a trace with the concurrent calls of parallel sections in line (in the
+    order of the section's list: the calls of one client keep their order)."""
+    out = []
+    for st in trace or []:
+        out.append(st)
+        for sub in st.get("sub") or []:
+            out.append(sub)
+    return out
+
+
 def edit_kinds(trace):
     ks = set()
     for st in trace or []:
@@ -29,7 +40,7 @@ def step_ops(trace):
 
 def predicate(name, r):
     cfg = r.get("config") or {}
-    trace = r.get("trace") or []
+    trace = flatten(r.get("trace") or [])
     ks = edit_kinds(trace)
     ops = step_ops(trace)
     if name == "hostile_step_present":
@@ -112,7 +123,11 @@ def predicate(name, r):
                 flags.add(bool((st.get("opts") or {}).get("no_presence")))
         return len(flags) == 2
     if name == "dbfault_dupwin":
-        return any(st.get("db") and st.get("flag") == "dupwin" for st in trace)
+        if any(st.get("db") and st.get("flag") == "dupwin" for st in trace):
+            return True
+        # step-level engine: the server process was killed inside a parallel section while some
+        # request had stored its changes but not yet the client's checkpoint
+        return any(d == "crash!dupwin" for st in trace for d in (st.get("sched") or []))
     if name == "detach_or_deactivate":
         return "detach" in ops or "deactivate" in ops
     if name == "array_move_or_set":
@@ -148,6 +163,10 @@ def counterfactual_config(kind, cfg):
         return cfg
     if kind == "no_corruption":
         return cfg
+    if kind == "no_dbfault":
+        cfg["extra"] = dict(cfg.get("extra") or {})
+        cfg["extra"]["crash_permille"] = 0
+        return cfg
     if kind in ("no_dbfault", "uniform_presence_flag", "reattach_as_new_client", "no_undo_redo", "split_updates"):
         return cfg
     raise ValueError("unknown counterfactual " + kind)
@@ -178,25 +197,32 @@ def counterfactual_trace(kind, trace):
                 out.append(st)
         return out
     if kind == "reattach_as_new_client":
-        out = []
         detached = set()
-        for st in trace:
-            op, c = st.get("op"), st.get("c", 0)
-            if op == "detach":
-                detached.add(c)
-            elif op == "newclient":
-                detached.discard(c)
-            elif op == "attach" and c in detached:
-                detached.discard(c)
-                nc = {"op": "newclient"}
-                ac = {"op": "activate"}
-                if c:
-                    nc["c"] = c
-                    ac["c"] = c
-                out.append(nc)
-                out.append(ac)
-            out.append(st)
-        return out
+
+        def walk(steps):
+            out = []
+            for st in steps:
+                op, c = st.get("op"), st.get("c", 0)
+                if op == "detach":
+                    detached.add(c)
+                elif op == "newclient":
+                    detached.discard(c)
+                elif op == "attach" and c in detached:
+                    detached.discard(c)
+                    nc = {"op": "newclient"}
+                    ac = {"op": "activate"}
+                    if c:
+                        nc["c"] = c
+                        ac["c"] = c
+                    out.append(nc)
+                    out.append(ac)
+                if st.get("sub"):
+                    st = dict(st)
+                    st["sub"] = walk(st["sub"])
+                    st.pop("sched", None)  # the recorded schedule does not know the new calls
+                out.append(st)
+            return out
+        return walk(trace)
     if kind == "uniform_presence_flag":
         first = None
         out = []
@@ -221,6 +247,8 @@ def counterfactual_trace(kind, trace):
         for st in trace:
             st = dict(st)
             st.pop("db", None)
+            if st.get("sched"):
+                st["sched"] = [d for d in st["sched"] if not str(d).startswith("crash!")]
             out.append(st)
         return out
     return trace
